@@ -11,7 +11,7 @@
         res: n <i|f> <+|-> <hex> <exp>  |  b <0|1>  |  err
    L <hex bytes of a literal> | LV <hex bytes>
         -> num <i|f> <+|-> <hex> <exp> | nan <i|f> | err
-           followed by  # same | nospec | ROUNDED | REJECTED | EXPRANGE  (NumLitSpec.classify)
+           followed by  # same | nospec | ROUNDED | REJECTED  (NumLitSpec.classify)
    S <op> <s|b> <hex> <hex>   bytewise comparison of strings / bytes  -> b <0|1>
 *)
 open C06_model
@@ -140,7 +140,7 @@ let handle line =
      | LNaN k -> "nan " ^ (match k with KInt -> "i" | KFloat -> "f")
      | LNum x -> "num " ^ show_num x)
     ^ " # " ^ (match cl with LcSame -> "same" | LcNoSpec -> "nospec" | LcRounded -> "ROUNDED"
-                           | LcRejected -> "REJECTED" | LcExpRange -> "EXPRANGE")
+                           | LcRejected -> "REJECTED")
   | "S" :: op :: _ :: a :: b :: [] ->
     if c06_bytes_cmp (cmp_of op) (bytes_of_string (unhex a)) (bytes_of_string (unhex b)) then "b 1" else "b 0"
   | _ -> "BADCASE"
